@@ -1,8 +1,87 @@
-(* Property C10 - placeholder while the proofs are being written. *)
-From Coq Require Import List ZArith Bool.
-From SV Require Import C10.Hungarian C10.HungarianSpec.
+(* Property C10 - Hungarian assignment is a matching of optimal total cost.
+   Model: SV.C10.Hungarian (solvor/hungarian.py lines 50-131).  Only statements; proofs are in coq/C10/. *)
+From Coq Require Import List Arith ZArith Bool.
+From SV Require Import C10.Hungarian C10.HungarianSpec C10.HungarianCert C10.HungarianPad C10.HungarianGlue C10.HungarianMain.
 Import ListNotations.
 Open Scope Z_scope.
 
-Example C10_model_example : solve [[10;5;13];[3;9;18];[10;6;12]] true = Some ([1;0;2], 20).
-Proof. vm_compute. reflexivity. Qed.
+(* (1) for EVERY matrix with a non-empty first row (or no rows): the model returns (no fuel / inf error),
+   one entry per row, -1 or an in-range column, no column twice, exactly min(rows, cols) rows assigned *)
+Theorem C10_matching : forall M minimize, has_cols M = true ->
+  exists a c, solve M minimize = Some (a, c) /\ matching_spec M a.
+Proof. exact matching_lemma. Qed.
+Print Assumptions C10_matching.
+
+(* (2) the reported objective is the sum of the chosen entries of the ORIGINAL matrix *)
+Theorem C10_objective : forall M minimize a c, has_cols M = true ->
+  solve M minimize = Some (a, c) -> objective_spec M (a, c).
+Proof. exact objective_lemma. Qed.
+Print Assumptions C10_objective.
+
+(* the excluded degenerate class: r > 0 rows of length 0 return [] (not [-1]*r) *)
+Theorem C10_zero_cols_refuted :
+  exists M, wf M = true /\ has_cols M = false /\
+            exists a c, solve M true = Some (a, c) /\ ~ matching_spec M a.
+Proof. exact zero_cols_refuted_lemma. Qed.
+Print Assumptions C10_zero_cols_refuted.
+
+(* (3) LP-duality certificate: feasible potentials that are tight on a perfect matching prove it optimal *)
+Theorem cert_assignment : forall n C (u v : nat -> Z) s,
+  (forall i j, (i < n)%nat -> (j < n)%nat -> u i + v j <= entry C i j) ->
+  perm_list n s ->
+  (forall i, (i < n)%nat -> u i + v (nth i s O) = entry C i (nth i s O)) ->
+  forall t, perm_list n t -> pcost C s <= pcost C t.
+Proof. exact cert_assignment_lemma. Qed.
+Print Assumptions cert_assignment.
+
+(* padding with zeros (minimise) *)
+Theorem pad_ok : forall M m a,
+  represents M m a ->
+  (forall m', pmatch (Nat.max (n_rows M) (n_cols M)) m' -> mcost (padded M true) m <= mcost (padded M true) m') ->
+  forall b, matching_spec M b -> cost_of M a <= cost_of M b.
+Proof. exact pad_ok_lemma. Qed.
+Print Assumptions pad_ok.
+
+(* max_val - c and padding with zeros (maximise), entries of any sign *)
+Theorem max_ok : forall M m a,
+  represents M m a ->
+  (forall m', pmatch (Nat.max (n_rows M) (n_cols M)) m' -> mcost (padded M false) m <= mcost (padded M false) m') ->
+  forall b, matching_spec M b -> cost_of M b <= cost_of M a.
+Proof. exact max_ok_lemma. Qed.
+Print Assumptions max_ok.
+
+(* every matching of the original extends to a perfect matching of the padded matrix, same (transformed) cost *)
+Theorem pad_extend_ok : forall M mz b, matching_spec M b ->
+  exists m', pmatch (Nat.max (n_rows M) (n_cols M)) m' /\ mcost (padded M mz) m' = kappa M mz (cost_of M b).
+Proof. exact pad_extend. Qed.
+Print Assumptions pad_extend_ok.
+
+(* (4, per-run form) if the boolean certificate check on the model's FINAL potentials succeeds - it is
+   evaluated by vm_compute for every correspondence case - the returned assignment is optimal *)
+Theorem C10_optimal_partial : forall M minimize, has_cols M = true -> solve_cert M minimize = true ->
+  exists a, solve M minimize = Some (a, cost_of M a) /\ matching_spec M a /\ optimal_spec M minimize a.
+Proof. exact solve_cert_optimal. Qed.
+Print Assumptions C10_optimal_partial.
+
+(* ---------- non-vacuity *)
+Example C10_nonvacuous_input :
+  has_cols [[10;5;13];[3;9;18];[10;6;12]] = true /\ wf [[10;5;13];[3;9;18];[10;6;12]] = true
+  /\ solve [[10;5;13];[3;9;18];[10;6;12]] true = Some ([1;0;2], 20)
+  /\ solve [[10;5;13];[3;9;18];[10;6;12]] false = Some ([0;2;1], 34).
+Proof. vm_compute. repeat split. Qed.
+
+Example C10_nonvacuous_rect :
+  has_cols [[-1;-2];[-3;-4];[-5;-6]] = true
+  /\ solve [[-1;-2];[-3;-4];[-5;-6]] true = Some ([-1;0;1], -9)
+  /\ solve [[-1;-2];[-3;-4];[-5;-6]] false = Some ([0;1;-1], -5)
+  /\ solve_cert [[-1;-2];[-3;-4];[-5;-6]] true = true /\ solve_cert [[-1;-2];[-3;-4];[-5;-6]] false = true
+  /\ spec_check [[-1;-2];[-3;-4];[-5;-6]] ([-1;0;1], -9) = true.
+Proof. vm_compute. repeat split. Qed.
+
+(* the hypotheses of cert_assignment are satisfiable: 2 x 2 matrix, potentials u = (0,1), v = (1,1),
+   the anti-diagonal is tight *)
+Example C10_nonvacuous_cert :
+  forallb (fun i => forallb (fun j => nth i [0; 1] 0 + nth j [1; 1] 0 <=? entry [[4; 1]; [2; 9]] i j) (seq 0 2)) (seq 0 2) = true
+  /\ forallb (fun i => nth i [0; 1] 0 + nth (nth i [1%nat; 0%nat] O) [1; 1] 0 =? entry [[4; 1]; [2; 9]] i (nth i [1%nat; 0%nat] O)) (seq 0 2) = true
+  /\ pcost [[4; 1]; [2; 9]] [1%nat; 0%nat] = 3.
+Proof. vm_compute. repeat split. Qed.
